@@ -29,7 +29,7 @@ Print Assumptions C20_oracle_holds_on_model.
 (* an exchange with a conforming-encoding peer succeeds iff the peer negotiated ntske/1 and,
    among the records that arrived completely, an end-of-message record is reached before any
    error record or unrecognised critical record, the (last) algorithm is 15 and there is at
-   least one cookie *)
+   least one cookie, none longer than 896 bytes (stream_accepted) *)
 Theorem C20_success_iff : forall ex sc, sc_strict sc = true -> exporter_ok ex ->
   (snd (exchange_keys ex (peer_of_script sc)) = 0 <->
    alpn_agreed sc = true /\ stream_accepted (sc_recs sc) (sc_cut sc) = true).
@@ -54,12 +54,14 @@ Proof. exact no_end_fails. Qed.
 Print Assumptions C20_truncated_fails.
 
 (* for ANY peer and byte stream (conforming or not): success implies ALPN ntske/1 was
-   negotiated, at least one cookie, algorithm 15, keys = exporter values of the session *)
+   negotiated, at least one cookie, algorithm 15, keys = exporter values of the session, and
+   every cookie fits into an NTS packet (at most 896 bytes, fix commit df23410) *)
 Theorem C20_success_implies : forall ex p d, exchange_keys ex p = (d, 0) ->
   p_up p = true /\
   (exists proto, tls_negotiate [alpn_ntske] (p_alpn p) = HsOk proto /\ bytes_eqb proto alpn_ntske = true) /\
   k_cookies d <> [] /\ k_algo d = 15 /\
-  ex exporter_label ctx_c2s key_len = Some (k_c2s d) /\ ex exporter_label ctx_s2c key_len = Some (k_s2c d).
+  ex exporter_label ctx_c2s key_len = Some (k_c2s d) /\ ex exporter_label ctx_s2c key_len = Some (k_s2c d) /\
+  forallb cookie_fits (k_cookies d) = true.
 Proof. exact exchange_success_facts. Qed.
 Print Assumptions C20_success_implies.
 
@@ -89,6 +91,21 @@ Theorem C20_keys_agree : forall ex p dC dS dS',
   ctx_c2s <> ctx_s2c.
 Proof. exact keys_agree. Qed.
 Print Assumptions C20_keys_agree.
+
+(* the project's own key-exchange server (message of newNTSKEMsg: next protocol, algorithm 15,
+   server = its IP, port, eight cookies, end) against the client: the exchange succeeds, the
+   client's keys are the exporter values of the session - the values the server sealed into
+   the cookies, see C20_keys_agree -, the pool is exactly the eight cookies issued, the target
+   is the address and port the server named *)
+Theorem C20_own_server_exchange : forall ex mk ip port host, exporter_ok ex ->
+  body_ok ip -> (forall i, body_ok (mk i)) -> (forall i, Z.of_nat (length (mk i)) <= 896) -> 0 <= port < 65536 ->
+  exists c2s s2c,
+    ex exporter_label ctx_c2s key_len = Some c2s /\ ex exporter_label ctx_s2c key_len = Some s2c /\
+    exchange_keys ex {| p_up := true; p_alpn := [alpn_ntske]; p_host := host; p_stream := server_msg mk ip port |}
+    = ({| k_c2s := c2s; k_s2c := s2c; k_server := ip; k_port := port;
+          k_cookies := map mk (seq 0 8); k_algo := 15 |}, 0).
+Proof. exact own_server_exchange. Qed.
+Print Assumptions C20_own_server_exchange.
 
 (* a failed FetchData leaves the zero state, and it was an exchange attempt *)
 Theorem C20_failure_leaves_nothing : forall ex st p st' fo,
